@@ -257,4 +257,21 @@ Fixpoint walk (fl : flags) (fuel : nat) (rs : list range) (acc : list N) : optio
 Definition enumerate (fl : flags) (fuel : nat) (p : pool) : option (list N) := walk fl fuel (p_ranges p) [].
 
 (** flags of the tree as it is now *)
-Definition cur_flags : flags := {| f9_check_nowrap := false; f8_null_subnet_err := false; f4_walk_breaks := false |}.
+Definition cur_flags : flags := {| f9_check_nowrap := true; f8_null_subnet_err := true; f4_walk_breaks := true |}.
+(** flags of the pinned commit, before the three repairs (kept for the [_refuted] witnesses) *)
+Definition old_flags : flags := {| f9_check_nowrap := false; f8_null_subnet_err := false; f4_walk_breaks := false |}.
+
+(** The predicates the C20 theorems are about (also evaluated, as monitors, on what the
+    implementation returns). *)
+Fixpoint ranges_valid (g l : N) (prev : option range) (rs : list range) : bool :=
+  match rs with
+  | [] => true
+  | r :: rest =>
+      (fst r <=? snd r) && net_contains g l (fst r) && net_contains g l (snd r) &&
+      match prev with None => true | Some p => snd p + 1 <? fst r end &&
+      ranges_valid g l (Some r) rest
+  end.
+Definition pool_valid (p : pool) : bool := ranges_valid (p_gateway p) (p_masklen p) None (p_ranges p).
+
+(** number of addresses, in unbounded arithmetic *)
+Definition total_size (p : pool) : N := fold_left (fun a r => a + (snd r + 1 - fst r)) (p_ranges p) 0.
